@@ -133,7 +133,8 @@ theorem C04_roundtrip_core (c : Trace.Code) (O : Trace.Options) (ext : Ext) (n :
     exact ser_ok t v (hwt v hv)
   obtain ⟨hlen, cols, hc1, hc2, hc3, hc4⟩ := Props.C01.C01_build_decode ext fields (vs.map (ser t)) arrs
     (fun f hf => (hside f hf).1)
-    (List.all_eq_true.mpr fun f hf => (hside f hf).2) hsafe (fun x hx => (hser x hx).1) htm
+    (List.all_eq_true.mpr fun f hf => (hside f hf).2) hsafe (fun x hx => Build.noRaw_ssa x (hser x hx).1)
+    (Or.inl fun x hx => (hser x hx).1) htm
   obtain ⟨_, hwf⟩ := Props.C03.C03_wf ext fields (vs.map (ser t)) arrs
     (fun f hf => (hside f hf).1) hsafe hext (fun x hx => (hser x hx).2) htm
   have hrl : (vs.map (ser t)).length = vs.length := List.length_map _
